@@ -176,13 +176,16 @@ Qed.
 (* g' extends g: cells are only appended (never overwritten), the only names (re)bound are registers >= d
    of the TOP frame, nothing is printed, and the instructions executed in between lie in [lo, hi) and were
    executed in address order, each at most once *)
+Definition top_vars (fs : list frame) : list (str * N) := match fs with f :: _ => vars f | [] => [] end.
 Record ext (d lo hi : nat) (g g' : gstate) : Prop := {
   ext_cells : exists extra, cells g' = cells g ++ extra;
   ext_find : forall x, ~ own_reg d x -> find_in_function x (frames g') = find_in_function x (frames g);
   ext_out : out g' = out g;
   ext_labs : map lab (frames g') = map lab (frames g);
   ext_tail : tl (frames g') = tl (frames g);
-  ext_trace : exists new, trace g' = new ++ trace g /\ Forall (fun ev => lo <= ev_ip ev < hi) new /\ ev_sorted new
+  ext_trace : exists new, trace g' = new ++ trace g /\ Forall (fun ev => lo <= ev_ip ev < hi) new /\ ev_sorted new;
+  (* frame-wise: the TOP frame binds the same cells to every name that is not one of the expression's registers *)
+  ext_top : forall x, ~ own_reg d x -> assoc x (top_vars (frames g')) = assoc x (top_vars (frames g))
 }.
 
 Lemma ext_refl : forall d lo hi g, ext d lo hi g g.
@@ -201,7 +204,7 @@ Lemma ext_seq : forall d1 lo1 hi1 d2 lo2 hi2 g g1 g2,
   forall d lo hi, d <= d1 -> d <= d2 -> hi1 <= lo2 -> lo <= lo1 -> lo <= lo2 -> hi1 <= hi -> hi2 <= hi ->
   ext d lo hi g g2.
 Proof.
-  intros d1 lo1 hi1 d2 lo2 hi2 g g1 g2 [C1 F1 O1 L1 T1 R1] [C2 F2 O2 L2 T2 R2] d lo hi Hd1 Hd2 Hadj Hl1 Hl2 Hh1 Hh2.
+  intros d1 lo1 hi1 d2 lo2 hi2 g g1 g2 [C1 F1 O1 L1 T1 R1 V1] [C2 F2 O2 L2 T2 R2 V2] d lo hi Hd1 Hd2 Hadj Hl1 Hl2 Hh1 Hh2.
   constructor.
   - destruct C1 as [x1 E1], C2 as [x2 E2]. exists (x1 ++ x2). rewrite E2, E1, app_assoc. reflexivity.
   - intros x Hx. rewrite F2 by (intros Ho; apply Hx; exact (own_reg_mono d d2 x Hd2 Ho)).
@@ -214,14 +217,17 @@ Proof.
     + apply Forall_app. split; eapply Forall_impl; try eassumption; cbn beta; intros; lia.
     + apply StronglySorted_app; [exact S2|exact S1|]. intros x y Hx Hy.
       rewrite Forall_forall in A1, A2. specialize (A1 y Hy). specialize (A2 x Hx). cbn beta in *. lia.
+  - intros x Hx. rewrite V2 by (intros Ho; apply Hx; exact (own_reg_mono d d2 x Hd2 Ho)).
+    apply V1. intros Ho; apply Hx; exact (own_reg_mono d d1 x Hd1 Ho).
 Qed.
 
 Lemma ext_weaken : forall d lo hi d1 lo1 hi1 g g1, ext d1 lo1 hi1 g g1 -> d <= d1 -> lo <= lo1 -> hi1 <= hi -> ext d lo hi g g1.
 Proof.
-  intros d lo hi d1 lo1 hi1 g g1 [C1 F1 O1 L1 T1 R1] Hd Hl Hh. constructor; try assumption.
+  intros d lo hi d1 lo1 hi1 g g1 [C1 F1 O1 L1 T1 R1 V1] Hd Hl Hh. constructor; try assumption.
   - intros x Hx. apply F1. intros Ho; apply Hx; exact (own_reg_mono d d1 x Hd Ho).
   - destruct R1 as (n1 & E1 & A1 & S1). exists n1. split; [exact E1|]. split; [|exact S1].
     eapply Forall_impl; try eassumption; cbn beta; intros; lia.
+  - intros x Hx. apply V1. intros Ho; apply Hx; exact (own_reg_mono d d1 x Hd Ho).
 Qed.
 
 Lemma ext_frames_ne : forall d lo hi g g', ext d lo hi g g' -> frames g <> [] -> frames g' <> [].
@@ -271,6 +277,8 @@ Proof.
     + intros x Hx. cbn [find_in_function vars lab]. rewrite assoc_set_other; [reflexivity|].
       intros ->. apply Hx. exists k. auto.
     + exists []. split; [reflexivity|]. split; constructor.
+    + intros x Hx. cbn [top_vars vars]. rewrite assoc_set_other; [reflexivity|].
+      intros ->. apply Hx. exists k. auto.
   - cbn [with_frames frames find_in_function vars]. rewrite assoc_set_same. reflexivity.
   - unfold cell_get. cbn [with_frames cells]. rewrite Nnat.Nat2N.id.
     rewrite nth_error_app2 by lia. rewrite Nat.sub_diag. reflexivity.
